@@ -52,11 +52,14 @@ def deviations(ctx):
     # commands
     jobs.append((dict(module="ProfCache", cfg='CONSTANTS\n  NChunks = 4\n  Dev = {"InPlaceCache"}\nSPECIFICATION Spec\nINVARIANTS SecondRunSound ValidMeansComplete\nCHECK_DEADLOCK FALSE\n',
                       name="dev_cache", expect_violation=True), None))
+    jobs.append((dict(module="ProfCache", cfg='CONSTANTS\n  NChunks = 4\n  Dev = {"FlushAfterRename"}\nSPECIFICATION Spec\nINVARIANTS SecondRunSound ValidMeansComplete\nCHECK_DEADLOCK FALSE\n',
+                      name="dev_cache_early_rename", expect_violation=True), None))
     dcfg = 'CONSTANTS\n  Nums = {0, 1, 7}\n  TableNums = {0, 1}\n  Dev = %s\n  MaxLines = 3\nSPECIFICATION Spec\nINVARIANTS %s\nCHECK_DEADLOCK FALSE\n'
     jobs.append((dict(module="Disasm", cfg=dcfg % ('{"StaleErr"}', "ErrorNotPartial"), name="dev_disasm_err", expect_violation=True), "ErrorNotPartial"))
     jobs.append((dict(module="Disasm", cfg=dcfg % ('{"SliceFixed"}', "Total"), name="dev_disasm_panic", expect_violation=True), "Total"))
     scfg = 'CONSTANTS\n  Faults = {"none", "kernelrefuses", "badyaml"}\n  Dev = %s\nSPECIFICATION Spec\nINVARIANTS ExecOnlyUnderFilter FailureExitsNonZeroWithoutTarget\nCHECK_DEADLOCK FALSE\n'
     jobs.append((dict(module="Sandbox", cfg=scfg % '{"IgnoreLoadError"}', name="dev_sandbox", expect_violation=True), None))
+    jobs.append((dict(module="Sandbox", cfg=(scfg % '{"TruncatedRead"}').replace("ExecOnlyUnderFilter", "WholeFileEnforced ExecOnlyUnderFilter"), name="dev_sandbox_trunc", expect_violation=True), None))
     import c13
     for dev, inv in (('{"SortNamesInPlace"}', ("NoConflict", "InputUnchanged")), ('{"PackageCache"}', ("NoConflict", "InputUnchanged")),
                      ('{"FlagStringMapOrder"}', "FlagStringDeterministic")):
